@@ -32,6 +32,14 @@ batch calls with every offset container, ret_data variants, offsets of the wrong
 `rotatedSecond` / `prncSq` (part B: get_inert_ratio_prnc on every region-like contour),
 `lclGet` / `lclRun` (part F, flattened integer accesses) and `lclGetMany` / `lclOp` / `lclOps`
 (part F, the history with its slices and index arrays).
+Session 4, second pass (generators/oracles only, no new model function): B - integer contours
+stored in every integer / float dtype (int8 .. uint64, float16 .. float64), both traversal
+directions and both axis orders, vs the same polygon as int64; D - integer-typed offset containers
+(python int lists / tuples, int64 / int16 / uint8 / float32 arrays, numpy integer scalars) and
+backgrounds within a few levels of the saturation of their dtype; E - every non-empty subset of
+{fl1_max, fl2_max, fl3_max} with the matching crosstalk keys, by direct calls (scalar 0 for a
+channel that was not measured) and through ds['fl{i}_max_ctc'] of in-memory datasets, the
+two-channel subsets also vs `twoChannel`.
 """
 import math
 from fractions import Fraction
@@ -63,7 +71,15 @@ RULE = ("A: masks = blobs grown from a seed pixel (8-neighbourhood, holes filled
         "after a failure, max_events in {1..5, n-1, n, n+3, None, 0}, routes "
         "list / 3-D array / counting indexable container / ds['contour'] (deques shrunk), and "
         "datasets of 1020-1120 events with the "
-        "default cache of 1000; non-trivial when max_events < number of events. Implementation vs Lean model to 1e-9 "
+        "default cache of 1000; non-trivial when max_events < number of events. "
+        "B also: 60 (600) integer contours shifted into the non-negative quadrant (largest coordinate "
+        "0..40 above the extent, or 127 / 255 / 1000 / 2000) and stored in each of the 11 integer / "
+        "float dtypes that hold them exactly, as-is / reversed / axes swapped / both, compared with "
+        "the int64 polygon. D also: 17 offset container kinds (8 integer typed / float32), each "
+        "forced twice on random cases and twice on backgrounds within 10 levels of the maximum of "
+        "uint8 / uint16 / int16 with |offset| <= 12. E also: 70 (700) cases cycling through the 7 "
+        "non-empty channel subsets x {dataset, direct} with 1-6 events. "
+        "Implementation vs Lean model to 1e-9 "
         "relative (relative to the magnitude of the cancelling terms for central moments).")
 TRUSTED_BASE = [
     "modelled, not verified: numpy elementwise arithmetic/roll/sum/mean/std/percentile/linalg.inv "
@@ -472,6 +488,152 @@ def purity_fails(fi, c):
     return [], c
 
 
+# every integer / float storage type of numpy; a polygon is its coordinates, not their container
+CONT_DTYPES = ["int8", "uint8", "int16", "uint16", "int32", "uint32", "int64", "uint64",
+               "float16", "float32", "float64"]
+
+
+def dtype_holds(name, c):
+    """every coordinate of the integer-valued contour `c` is exactly representable in dtype `name`"""
+    lo, hi = int(c.min()), int(c.max())
+    dt = np.dtype(name)
+    if dt.kind in "iu":
+        ii = np.iinfo(dt)
+        return int(ii.min) <= lo and hi <= int(ii.max)
+    return max(abs(lo), abs(hi)) <= 2 ** (np.finfo(dt).nmant + 1)
+
+
+def dtype_variants(base):
+    """both traversal directions x both axis orders of an integer contour (int64)"""
+    base = np.ascontiguousarray(base, dtype=np.int64)
+    return [("as-is", base), ("reversed", np.ascontiguousarray(base[::-1])),
+            ("swapped", np.ascontiguousarray(base[:, ::-1])),
+            ("swapped-reversed", np.ascontiguousarray(base[::-1, ::-1]))]
+
+
+def dtype_fails(M, base, names=CONT_DTYPES):
+    """area and inertia features are functions of the polygon: the same integer coordinates stored
+    in any integer / float dtype (signed, unsigned, every width), traversed in either direction,
+    with either axis order, give the same moments, area, inertia ratios and tilt as the int64
+    contour; on the typed contour itself area == |shoelace| and raw(c) * raw(swapped c) == 1.
+    Returns (failures, dtypes exercised)."""
+    fi = M["inert"]
+    fails, used = [], []
+    variants = dtype_variants(base)
+    refs = []
+    for vname, v in variants:
+        r = guarded(fi.cont_moments_cv, v)
+        if r[0] != "ok":
+            return [f"cont_moments_cv raised {r[1]} on an int64 contour ({vname})"], used
+        refs.append((r[1], [guarded(getattr(fi, f), v) for f in
+                            ("get_inert_ratio_raw", "get_inert_ratio_cvx", "get_tilt",
+                             "get_inert_ratio_prnc")]))
+    area = abs(U.shoelace(base))
+    for name in names:
+        if not dtype_holds(name, base):
+            continue
+        used.append(name)
+        raws = {}
+        for (vname, v), (mref, fref) in zip(variants, refs):
+            t = v.astype(name)
+            snap = t.copy()
+            r = guarded(fi.cont_moments_cv, t)
+            if r[0] != "ok":
+                fails.append(f"cont_moments_cv raised {r[1]} on a {name} contour ({vname})")
+                break
+            m = r[1]
+            if (m is None) != (mref is None):
+                fails.append(f"cont_moments_cv of a {name} contour ({vname}) is "
+                             f"{'None' if m is None else 'a dict'}, of the same int64 contour not")
+                break
+            if m is not None:
+                if not U.close_to(m["m00"], area, 1e-9, scale=mom_scale(v, "m00")):
+                    fails.append(f"area m00 = {m['m00']!r} of a {name} contour ({vname}) is not the "
+                                 f"|shoelace area| {float(area)!r}")
+                    break
+                bad = [k for k in MOM_KEYS
+                       if not U.close_to(m[k], mref[k], 1e-9, scale=mom_scale(v, k))]
+                if bad:
+                    k = bad[0]
+                    fails.append(f"moment {k} of a {name} contour ({vname}) = {m[k]!r} differs from "
+                                 f"the same polygon stored as int64 ({mref[k]!r})")
+                    break
+            stop = False
+            for fname, ref, tol in zip(("get_inert_ratio_raw", "get_inert_ratio_cvx", "get_tilt",
+                                        "get_inert_ratio_prnc"), fref, (1e-9, 1e-9, 1e-9, 1e-6)):
+                g = guarded(getattr(fi, fname), t)
+                if g[0] != ref[0]:
+                    fails.append(f"{fname} on a {name} contour ({vname}): "
+                                 f"{g[1] if g[0] == 'exc' else 'ok'} vs int64 "
+                                 f"{ref[1] if ref[0] == 'exc' else 'ok'}")
+                    stop = True
+                    break
+                if g[0] != "ok":
+                    continue
+                a, b = float(g[1]), float(ref[1])
+                if fname == "get_inert_ratio_raw":
+                    raws[vname] = a
+                # the same numbers in exact integer range: float64 sums differ by rounding only;
+                # thin shapes (tiny mu20/mu02) amplify that, hence the conditioning factor
+                # (ill-conditioned cases, tolerance > 10 %, are skipped)
+                cond = 1.0
+                if m is not None:
+                    cond += sum(mom_scale(v, k) / max(abs(mref[k]), 1e-300)
+                                for k in ("mu20", "mu02"))
+                if tol * cond > 0.1 or (math.isnan(a) and math.isnan(b)):
+                    continue
+                if not U.close_to(a, b, tol * cond, scale=1e-12):
+                    fails.append(f"{fname} of a {name} contour ({vname}) = {a!r} differs from the "
+                                 f"same polygon stored as int64 ({b!r})")
+                    stop = True
+                    break
+            if not np.array_equal(t, snap):
+                fails.append(f"a feature function modified the {name} contour it was given")
+                stop = True
+            if stop:
+                break
+        else:
+            for p_, q_ in (("as-is", "swapped"), ("reversed", "swapped-reversed")):
+                r1, r2 = raws.get(p_), raws.get(q_)
+                if r1 is not None and r2 is not None and np.isfinite(r1) and np.isfinite(r2) \
+                        and r1 > 0 and not U.close_to(r1 * r2, 1.0, 1e-9):
+                    fails.append(f"inert_ratio_raw of a {name} contour is not reciprocal under "
+                                 f"axis swap: {r1!r} * {r2!r}")
+                    break
+    return fails, used
+
+
+def part_b_dtypes(ctx, M, cases):
+    """storage types: integer contours (mask contours, integer polygons) moved into the
+    non-negative quadrant (near the origin, or so that the largest coordinate is the maximum of a
+    narrow dtype / a few thousand) and stored in every dtype that holds them"""
+    pool = [(k, c) for k, c in cases if np.issubdtype(c.dtype, np.integer) and len(c) >= 3]
+    if not pool:
+        return
+    budget = ctx.n(60, 600)
+    step = max(1, len(pool) // budget)
+    for kind, c in pool[::step][:budget]:
+        c = np.asarray(c, dtype=np.int64)
+        ext = int((c.max(axis=0) - c.min(axis=0)).max())
+        top = ctx.rng.choice([0, 0, 127, 255, 1000, 2000])      # largest coordinate after the shift
+        shift = -c.min(axis=0)
+        if top > ext:
+            shift = shift + (top - int((c + shift).max()))
+        elif ctx.rng.random() < 0.5:
+            shift = shift + np.array([ctx.rng.randint(0, 40), ctx.rng.randint(0, 40)])
+        base = c + shift
+        r = guarded(dtype_fails, M, base)
+        fails, used = r[1] if r[0] == "ok" else ([f"dtype oracle evaluation raised {r[1]}"], [])
+        for name in used:
+            ctx.stat("B:dtype=" + name)
+        ctx.case(("B-dtype", base.tobytes()), nontrivial=True,
+                 sample={"part": "B-dtype", "kind": kind, "npoints": len(base),
+                         "max_coordinate": int(base.max())})
+        if fails:
+            ctx.violation("spec", f"moments of a {kind.split(':')[0]} contour: {fails[0]}",
+                          {"part": "B-dtype", "cont": base.tolist(), "failures": fails})
+
+
 def gen_polygon(rng):
     kind = rng.choice(["star", "star", "star-int", "ellipse", "ellipse-rot", "tri", "cw"])
     cx, cy = rng.uniform(-300, 300), rng.uniform(-300, 300)
@@ -585,6 +747,7 @@ def part_b(ctx, M, jobs, conts):
             return None
         jobs.add(f"mom {U.rat(U.FLT_EPS)} {U.rat(U.DBL_EPS)} " + U.pts_line(c), cb)
         prnc_job(ctx, M, jobs, c, m)
+    part_b_dtypes(ctx, M, cases)
 
 
 # =============================================================================================
@@ -811,7 +974,11 @@ def part_c(ctx, M, jobs, conts):
 
 # =============================================================================================
 # D. brightness
-OFF_KINDS = ["none", "float", "npfloat", "int", "zero", "list", "tuple", "array", "feature"]
+OFF_KINDS = ["none", "float", "npfloat", "int", "zero", "list", "tuple", "array", "feature",
+             "intlist", "inttuple", "i64array", "i16array", "u8array", "f32array", "npint", "npuint8"]
+# integer-typed containers: python ints (scalar, list, tuple), integer arrays, numpy integer scalars
+INT_SCALAR_KINDS = ("int", "npint", "npuint8")
+INT_EVENT_KINDS = ("intlist", "inttuple", "i64array", "i16array", "u8array")
 
 
 def make_offset(kind, values):
@@ -832,6 +999,19 @@ def make_offset(kind, values):
         return tuple(float(v) for v in values)
     if kind in ("array", "feature"):
         return np.array(values, dtype=np.float64)
+    if kind == "intlist":
+        return [int(v) for v in values]
+    if kind == "inttuple":
+        return tuple(int(v) for v in values)
+    if kind in ("i64array", "i16array", "u8array"):
+        return np.array([int(v) for v in values],
+                        dtype={"i64array": np.int64, "i16array": np.int16, "u8array": np.uint8}[kind])
+    if kind == "f32array":
+        return np.array(values, dtype=np.float32)
+    if kind == "npint":
+        return np.int64(int(values[0]))
+    if kind == "npuint8":
+        return np.uint8(int(values[0]))
     raise ValueError(kind)
 
 
@@ -840,10 +1020,12 @@ def effective_offsets(kind, values, n):
         return [None] * n
     if kind in ("float", "npfloat"):
         return [float(values[0])] * n
-    if kind == "int":
+    if kind in INT_SCALAR_KINDS:
         return [int(values[0])] * n
     if kind == "zero":
         return [0.0] * n
+    if kind in INT_EVENT_KINDS:
+        return [int(v) for v in values]
     return [float(v) for v in values]
 
 
@@ -891,6 +1073,28 @@ def gen_values(rs, rng, name, shape, style, mm, other=None):
     return v
 
 
+def offset_values(rng, kind, n, values):
+    """per-event offsets for the integer-typed / float32 containers (within the container's range,
+    negative values included where the type has them); other kinds keep `values`"""
+    if kind in ("intlist", "inttuple", "i64array"):
+        return [float(rng.choice([rng.randint(-9, 9), rng.randint(-9, 9), rng.randint(1, 60), -1,
+                                  65535, -40000, 300])) for _ in range(n)]
+    if kind == "i16array":
+        return [float(rng.choice([rng.randint(-9, 9), rng.randint(-300, 300), -32768, 32767]))
+                for _ in range(n)]
+    if kind == "u8array":
+        return [float(rng.choice([rng.randint(0, 12), rng.randint(0, 255), 255, 1]))
+                for _ in range(n)]
+    if kind == "f32array":
+        return [float(np.float32(rng.choice([rng.randint(-40, 40) / 4.0, rng.randint(-9, 9),
+                                             1024.5, -0.125]))) for _ in range(n)]
+    if kind == "npint":
+        return [float(rng.choice([rng.randint(-9, 9), rng.randint(1, 60), 65535, -40000]))] * n
+    if kind == "npuint8":
+        return [float(rng.choice([rng.randint(0, 12), rng.randint(0, 255), 255]))] * n
+    return values
+
+
 def gen_bright_case(rng, thorough=False):
     n = rng.randint(1, 4)
     h, w = rng.randint(6, 14), rng.randint(6, 18)
@@ -929,9 +1133,38 @@ def gen_bright_case(rng, thorough=False):
         values = [float(rng.choice([rng.randint(-9, 9), 65535, -40000, 2 ** 31]))] * n
     if kind in ("float", "npfloat"):
         values = [values[0]] * n
+    values = offset_values(rng, kind, n, values)
     stack = rng.choice(["array3d", "list"])
     return {"masks": masks, "imgs": imgs, "bgs": bgs, "off_kind": kind, "off_values": values,
             "stack": stack, "frac_img": frac_img}
+
+
+def saturated_case(rng, kind, dt):
+    """1-4 events whose background lies within 10 levels of the maximum of its integer dtype and
+    whose image is darker under the mask; offsets small (|v| <= 12), in the container `kind`"""
+    n = rng.randint(1, 4)
+    h, w = rng.randint(4, 8), rng.randint(4, 9)
+    rs = np.random.RandomState(rng.randrange(2 ** 31))
+    hi = int(np.iinfo(dt).max)
+    masks, imgs, bgs = [], [], []
+    for _ in range(n):
+        mm = np.zeros((h, w), dtype=bool)
+        y0, x0 = rng.randint(0, h - 2), rng.randint(0, w - 2)
+        mm[y0:rng.randint(y0 + 1, h), x0:rng.randint(x0 + 1, w)] = True
+        bg = rs.randint(hi - 9, hi + 1, (h, w)).astype(np.int64)
+        img = bg - rs.randint(0, 60, (h, w)) * mm
+        masks.append(mm)
+        imgs.append(img.astype(dt))
+        bgs.append(bg.astype(dt))
+    small = [float(rng.choice([rng.randint(1, 12), rng.randint(-12, 12), 7])) for _ in range(n)]
+    if kind in ("u8array", "npuint8"):
+        small = [abs(v) for v in small]
+    if kind == "f32array":
+        small = [v + 0.25 for v in small]
+    if kind in ("float", "npfloat") + INT_SCALAR_KINDS:
+        small = [small[0]] * n
+    return {"masks": masks, "imgs": imgs, "bgs": bgs, "off_kind": kind, "off_values": small,
+            "stack": rng.choice(["array3d", "list"]), "frac_img": False}
 
 
 def bright_payload(case):
@@ -1039,6 +1272,12 @@ def bright_eval(M, case):
     for i in range(n):
         o_i = eff[i]
         variants = [o_i] if o_i is None else [o_i, np.array([o_i]), [o_i]]
+        if kind in ("u8array", "npuint8"):
+            variants += [np.uint8(o_i), np.array([o_i], dtype=np.uint8)]
+        elif kind == "i16array":
+            variants += [np.int16(o_i), np.array([o_i], dtype=np.int16)]
+        elif kind == "f32array":
+            variants += [np.float32(o_i), np.array([o_i], dtype=np.float32)]
         for o in variants:
             s_bc = guarded(fbc.get_bright_bc, masks[i], imgs[i], bgs[i], bg_off=o)
             s_pc = guarded(fbp.get_bright_perc, masks[i], imgs[i], bgs[i], bg_off=o)
@@ -1124,7 +1363,7 @@ def off_token(kind, values):
         return "-"
     if kind in ("float", "npfloat"):
         return "s:" + U.rat(float(values[0]))
-    if kind == "int":
+    if kind in INT_SCALAR_KINDS:
         return "s:" + U.rat(int(values[0]))
     if kind == "zero":
         return "s:0"
@@ -1237,6 +1476,15 @@ def part_d(ctx, M, jobs):
                 case["off_values"] = [float(int(case["off_values"][0]))
                                       if case["off_kind"] == "int" else case["off_values"][0]
                                       ] * len(case["masks"])
+            case["off_values"] = offset_values(ctx.rng, case["off_kind"], len(case["masks"]),
+                                               case["off_values"])
+        elif i < len(OFF_KINDS) * 4:
+            # every container kind on a background within a few levels of the saturation of its
+            # integer type (bright-field like: bright background, darker object), small offsets
+            k_ = OFF_KINDS[i % len(OFF_KINDS)]
+            case = saturated_case(ctx.rng, k_, "uint8" if i < len(OFF_KINDS) * 3 else
+                                  ctx.rng.choice(["uint8", "uint16", "int16"]))
+            ctx.stat("D:near-saturation-background")
         n = len(case["masks"])
         ctx.stat("D:off=" + case["off_kind"])
         ctx.stat(f"D:events={n}")
@@ -1472,6 +1720,134 @@ def part_e(ctx, M, jobs):
                 return ("spill (harness) vs model", str(yy), ans[:60], rp)
         jobs.add("spill " + " ".join(U.rat(v) for v in flat) + " "
                  + " ".join(U.rat(x[i][0]) for i in range(3)), cbs)
+
+
+# ---- feature subsets: which fluorescence channels were measured
+CT_SUBSETS = [(1,), (2,), (3,), (1, 2), (1, 3), (2, 3), (1, 2, 3)]
+
+
+def subset_eval(M, chans, ct, x, route):
+    """crosstalk correction when only the channels `chans` were measured.
+
+    `x[i]` (i in chans) are the true signals of k events, `ct` the spill coefficients between the
+    measured channels (keys 'ctij', i != j in chans).  The measured signals are y_j = sum_i x_i c_ij
+    (exact, rounded to float64).  Routes: "direct" - correct_crosstalk with the scalar 0 for every
+    channel that was not measured (what the ancillary features pass) and arrays for the others;
+    "dataset" - an in-memory dataset holding exactly the features fl{i}_max (i in chans) with the
+    matching 'crosstalk flij' keys in its [calculation] section, read through ds['fl{i}_max_ctc'].
+    Oracle (property text): the correction inverts the spill-over, i.e. returns x_i for every
+    measured channel, one value per event.  Returns (failures, {channel: corrected values})."""
+    chans = tuple(chans)
+    k = len(x[chans[0]])
+    C = {(i, j): (Fraction(1) if i == j else Fraction(ct.get(f"ct{i}{j}", 0)))
+         for i in chans for j in chans}
+    y = {j: np.array([float(sum(Fraction(x[i][e]) * C[(i, j)] for i in chans)) for e in range(k)])
+         for j in chans}
+    scale = max(max(abs(v) for v in x[i]) for i in chans) + 1.0
+    fails, got = [], {}
+    if route == "direct":
+        fl = [y[i] if i in chans else 0 for i in (1, 2, 3)]
+        for ch in chans:
+            r = guarded(M["ct"].correct_crosstalk, fl[0], fl[1], fl[2], ch, **ct)
+            if r[0] != "ok":
+                fails.append(f"correct_crosstalk(fl_channel={ch}) raised {r[1]} when the channels "
+                             f"{[i for i in (1, 2, 3) if i not in chans]} are not measured (scalar 0) "
+                             f"and the others are arrays of {k} events")
+                continue
+            got[ch] = np.asarray(r[1], dtype=float)
+    else:
+        dclab = common.import_dclab()
+
+        def build():
+            data = {"deform": np.linspace(0.01, 0.02, k), "area_um": np.linspace(20, 30, k)}
+            for i in chans:
+                data[f"fl{i}_max"] = y[i]
+            ds = dclab.new_dataset(data)
+            for key, v in ct.items():
+                ds.config["calculation"][f"crosstalk fl{key[2:]}"] = v
+            return ds
+        r = guarded(build)
+        if r[0] != "ok":
+            return [f"in-memory dataset with features fl{list(chans)}_max could not be built: "
+                    f"{r[1]}"], got
+        ds = r[1]
+        for ch in chans:
+            feat = f"fl{ch}_max_ctc"
+            if len(chans) == 1:
+                # one channel: nothing to correct, no recipe is registered for it
+                a = guarded(lambda: feat in ds)
+                if a[0] == "ok" and not a[1]:
+                    continue
+            r = guarded(lambda: np.array(ds[feat][:], dtype=float))
+            if r[0] != "ok":
+                fails.append(f"ds[{feat!r}] raised {r[1]} on a dataset that has "
+                             f"{', '.join(f'fl{i}_max' for i in chans)} and the crosstalk keys "
+                             f"{sorted(ct)}")
+                continue
+            got[ch] = r[1]
+    for ch, g in got.items():
+        if g.shape != (k,):
+            fails.append(f"crosstalk-corrected channel {ch} has shape {g.shape} for {k} events "
+                         f"(measured channels {list(chans)}, route {route})")
+        elif not all(U.close_to(g[e], x[ch][e], 1e-9, scale=scale) for e in range(k)):
+            fails.append(f"compensation does not invert the spill-over (measured channels "
+                         f"{list(chans)}, route {route}, channel {ch}: {g.tolist()} vs {x[ch]})")
+    return fails, got
+
+
+def part_e_subsets(ctx, M, jobs):
+    """every non-empty subset of {fl1_max, fl2_max, fl3_max} with the matching crosstalk keys, by
+    direct calls (absent channel = scalar 0) and through the ancillary features of datasets"""
+    for i in range(ctx.n(70, 700)):
+        chans = CT_SUBSETS[i % len(CT_SUBSETS)]
+        route = "dataset" if (i // len(CT_SUBSETS)) % 2 == 0 else "direct"
+        for _try in range(20):
+            ct = {f"ct{a}{b}": ctx.rng.choice([round(ctx.rng.uniform(0, 0.9), 2),
+                                                 ctx.rng.uniform(0, 0.9), 0.0, 0])
+                  for a in chans for b in chans if a != b}
+            Cm = np.eye(3)
+            for key, v in ct.items():
+                Cm[int(key[2]) - 1, int(key[3]) - 1] = v
+            if abs(np.linalg.det(Cm)) >= 0.05:
+                break
+        else:
+            continue
+        k = ctx.rng.randint(1, 6)
+        x = {c: [ctx.rng.choice([ctx.rng.uniform(0, 1e4), float(ctx.rng.randint(0, 5000))])
+                 for _ in range(k)] for c in chans}
+        rp = {"part": "E-subset", "channels": list(chans), "ct": ct, "route": route,
+              "x": {str(c): v for c, v in x.items()}}
+        ctx.stat("E:subset=" + "".join(map(str, chans)) + "/" + route)
+        ctx.case(("E-subset", chans, route, tuple(sorted(ct.items())),
+                  tuple((c, tuple(v)) for c, v in sorted(x.items()))),
+                 nontrivial=len(chans) >= 2,
+                 sample={"part": "E-subset", "channels": list(chans), "route": route, "events": k})
+        r = guarded(subset_eval, M, chans, ct, x, route)
+        if r[0] != "ok":
+            ctx.violation("spec", f"crosstalk feature-subset evaluation crashed: {r[1]}", rp)
+            continue
+        fails, got = r[1]
+        if fails:
+            ctx.violation("spec", fails[0], dict(rp, failures=fails))
+            continue
+        if len(chans) == 2 and all(c in got for c in chans):
+            # the two measured channels vs the closed 2x2 form of the model (`twoChannel`)
+            a, b = chans
+            Cf = {(p_, q_): Fraction(ct[f"ct{p_}{q_}"]) for p_, q_ in ((a, b), (b, a))}
+            ya = Fraction(x[a][0]) + Fraction(x[b][0]) * Cf[(b, a)]
+            yb = Fraction(x[b][0]) + Fraction(x[a][0]) * Cf[(a, b)]
+            wa, wb = float(got[a][0]), float(got[b][0])
+
+            def cb2(ans, wa=wa, wb=wb, rp=rp, chans=chans):
+                if ans.startswith("err"):
+                    return ("two-channel closed form vs feature subset", repr((wa, wb)), ans, rp)
+                ma, mb = [float(U.unrat(v)) for v in ans.split()]
+                sc2 = max(abs(ma), abs(mb)) + 1.0
+                if not (U.close_to(wa, ma, 1e-9, scale=sc2) and U.close_to(wb, mb, 1e-9, scale=sc2)):
+                    return (f"two-channel closed form vs fl{chans[0]}/fl{chans[1]}_max_ctc",
+                            repr((wa, wb)), repr((ma, mb)), rp)
+            jobs.add("two " + U.rat(ct[f"ct{a}{b}"]) + " " + U.rat(ct[f"ct{b}{a}"]) + " "
+                     + U.rat(float(ya)) + " " + U.rat(float(yb)), cb2)
 
 
 # =============================================================================================
@@ -1949,6 +2325,7 @@ def run_parts(ctx, M, jobs):
     part_c(ctx, M, jobs, conts)
     part_d(ctx, M, jobs)
     part_e(ctx, M, jobs)
+    part_e_subsets(ctx, M, jobs)
     part_f(ctx, M, jobs)
 
 
@@ -2032,6 +2409,11 @@ def replay(ctx, data):
         cc = np.array(p["cont"], dtype=np.dtype(p["dtype"]))
         fails, cc = purity_fails(M["inert"], cc)
         fails = fails or moments_oracles(M, cc, random.Random(0))
+    elif part == "B-dtype":
+        fails = dtype_fails(M, np.array(p["cont"], dtype=np.int64))[0]
+    elif part == "E-subset":
+        fails = subset_eval(M, tuple(p["channels"]), p["ct"],
+                            {int(c): v for c, v in p["x"].items()}, p["route"])[0]
     elif part == "C":
         import random
         fails = volume_oracles(M, np.array(p["cont"], dtype=np.dtype(p["dtype"])), p["pos_x"],
